@@ -78,6 +78,59 @@ PROPS = {
                 "nesting of brackets, calls, indexes, signs, joins and error cascades up to a few KiB; non-trivial = distinct input",
         "assumptions": ["wall-clock time and stack exhaustion belong to the Go runtime: measured by the watchdog, not proved"],
     },
+    "C01": {
+        "case_sets": ["compile"],
+        "ops": ["COMPILE"],
+        "oracle_clauses": [r"c01-.*", r"c05-lex", r"c05-parse", r"c05-brackets", r"unreadable-.*"],
+        "lean_targets": ["PqlModel.Props.C01"],
+        "facts": ["binaryOps", "builtinIdentifiers", "knownFunctions", "writerArityGuard", "maybeParenBare", "precedence"],
+        "rule": "COMPILE: hand-written corpus of expression shapes (parentheses, signs, index, in, every built-in as operand of "
+                "every operator class) + grammar-generated programs with expressions in every position; the oracle re-reads "
+                "the emitted SQL with the independent SQL reader and compares WHERE expressions with the intended translation; "
+                "non-trivial = distinct source that compiles",
+    },
+    "C04": {
+        "case_sets": ["content"],
+        "ops": ["COMPILE", "COMPILE2", "QUOTE"],
+        "oracle_clauses": [r"c04-.*", r"c05-lex", r"unreadable-.*"],
+        "lean_targets": ["PqlModel.Props.C04"],
+        "facts": [],
+        "rule": "QUOTE: both quoting functions on every string over a 13-symbol adversarial alphabet up to length 3 (quick) / 4 "
+                "(thorough) and random longer ones; COMPILE2: generated programs compiled twice with the contents of all string "
+                "literals, quoted names and numbers replaced by adversarial contents — token shapes must coincide; "
+                "non-trivial = distinct case",
+    },
+    "C05": {
+        "case_sets": ["compile", "content"],
+        "ops": ["COMPILE"],
+        "oracle_clauses": [r"c05-.*", r"unreadable-.*"],
+        "lean_targets": ["PqlModel.Props.C05"],
+        "facts": [],
+        "rule": "COMPILE on generated, corrupted-but-accepted and adversarial-content programs; the output must lex, end in one ';', "
+                "balance brackets, parse as [WITH …] select, read only source tables or earlier CTEs, have unique generated names, "
+                "no unused CTE and no comment/placeholder; non-trivial = distinct source that compiles",
+    },
+    "C06": {
+        "case_sets": ["compile"],
+        "ops": ["COMPILE"],
+        "oracle_clauses": [r"c06-.*", r"unreadable-.*"],
+        "lean_targets": ["PqlModel.Props.C06"],
+        "facts": ["builtinIdentifiers"],
+        "rule": "COMPILE with parameter maps (names colliding with columns, constants, let names) and let chains (shadowing, "
+                "redefinition, lets after the query, uses under signs, before [, in in-lists, join conditions, row counts); the "
+                "output is read and compared with the reference reading of the program with all lets substituted; "
+                "non-trivial = distinct (source, parameters) with at least one let or parameter",
+    },
+    "C13": {
+        "case_sets": ["compile"],
+        "ops": ["COMPILE"],
+        "oracle_clauses": [r"c13-.*", r"unreadable-.*"],
+        "lean_targets": ["PqlModel.Props.C13"],
+        "facts": ["writerArityGuard", "knownFunctions", "joinTypes"],
+        "rule": "COMPILE on generated programs, the same with a token corrupted, and a corpus of every documented misuse; the oracle "
+                "evaluates the Misuse predicate on the parsed program and requires error iff (parse error or misuse); "
+                "non-trivial = distinct (source, parameters)",
+    },
 }
 
 
@@ -87,6 +140,10 @@ def nontrivial(op, lhs, impl):
         return (head.isdigit() and int(head) >= 2) or "TokenError" in impl
     if op == "SPLIT":
         return (head.isdigit() and int(head) >= 2) or "3b" in lhs
+    if op in ("COMPILE", "COMPILE2"):
+        return head == "OK" or op == "COMPILE2"
+    if op == "QUOTE":
+        return True
     if op in ("PARSE", "PARSEV"):
         return True
     if op == "WALK":
